@@ -777,6 +777,8 @@ func genErrVal(thorough bool) Gen {
 			{"table-l2", func() []Expr { return []Expr{Name("etab"), Num(2)} }},
 			{"false", func() []Expr { return []Expr{False()} }},
 			{"nil", func() []Expr { return []Expr{Nil()} }},
+			{"no-argument", func() []Expr { return nil }},
+			{"nil-l2", func() []Expr { return []Expr{Nil(), Num(2)} }},
 			{"true", func() []Expr { return []Expr{True()} }},
 			{"function", func() []Expr { return []Expr{Name("efn")} }},
 			{"userdata", func() []Expr { return []Expr{Name("eud")} }},
